@@ -108,6 +108,7 @@ def _run_batch(base_seed, pid_, start, count, det_every, want_samples):
             agg["harness"] = "seed index %d (seed %d): %s" % (i, seed, e)
             break
         agg["seeds"] += 1
+        _W["wseq"] = _W.get("wseq", 0) + 1
         dg = hashlib.sha1()
         for r, (variant, plan, ctx, ptape, stape) in zip(_summ(results, i, seed), results):
             agg["evals"] += 1
@@ -125,7 +126,8 @@ def _run_batch(base_seed, pid_, start, count, det_every, want_samples):
                         continue
                     seen.add(key)
                     agg["viol"].append({"key": key, "detail": detail, "idx": i, "seed": seed, "variant": variant,
-                                        "plan_choices": list(ptape.record), "sched_choices": list(stape.record)})
+                                        "plan_choices": list(ptape.record), "sched_choices": list(stape.record),
+                                        "pid": os.getpid(), "wseq": _W.get("wseq", 0)})
             if want_samples and len(agg["samples"]) < want_samples and r["nontrivial"] and (i % 7 == 0 or not agg["samples"]):
                 d = prop.describe(plan, variant)
                 d.update({"seed": seed, "outcome": "violations=%d faults=%s sim_time=%.3f" % (len(r["violations"]), dict(r["faults"]), r["sim_time"])})
@@ -268,6 +270,11 @@ def do_replay(pid_, path):
         if rep["key"] in keys:
             d = next(d for k, d in ctx.violations if k == rep["key"])
             print("reproduced key=%s detail=%s" % (rep["key"], d))
+            if rep.get("trace_digest") is None:
+                rep["trace_digest"] = ctx.digest()
+                rep["plan"] = prop.describe(plan, variant)
+                with open(path, "w") as f:
+                    json.dump(rep, f, indent=1, default=repr)
             same = rep.get("trace_digest") == ctx.digest()
             print("trace identical: %s" % same)
             known = match_known(load_known(pid_), rep["key"])
@@ -442,7 +449,7 @@ def _main(prop, pid_, tier, base_seed, runs, wall, workers, root, t0, args):
             # prefer the shortest recorded instance; an instance may fail to reproduce from its own record when the
             # tree under test keeps state across runs (module-level cache, shared mutable default): try a few
             cands = sorted(by_key[key], key=lambda v: len(v["plan_choices"]) + len(v["sched_choices"]))
-            cands = cands[:3] + [c for c in sorted(by_key[key], key=lambda v: v["idx"])[:2] if c not in cands[:3]]
+            cands = cands[:20] + [c for c in sorted(by_key[key], key=lambda v: v["idx"])[:20] if c not in cands[:20]]
             cur = v = None
             err = None
             for v in cands:
@@ -471,6 +478,35 @@ def _main(prop, pid_, tier, base_seed, runs, wall, workers, root, t0, args):
             print("violation key=%s\n  detail: %s\n  minimised: plan %d->%d choices, sched %d->%d choices; seed index %d"
                   % (key, rep["detail"][:600], len(v["plan_choices"]), len(cur["plan_choices"]), len(v["sched_choices"]), len(cur["sched_choices"]), v["idx"]))
             print("VIOLATION property=%s replay=%s" % (pid_, path), flush=True)
+        if not replays:
+            # Nothing was confirmed in a fresh interpreter: the tree under test probably keeps state across runs (a
+            # module-level object mutated by an earlier run).  Minimising inside this - by now equally polluted - process
+            # is then unsound, so fall back to UNMINIMISED records, judged by a fresh interpreter only.  The first
+            # violating run of each worker process is self-contained: try those first.
+            firsts = {}
+            for v in agg["viol"]:
+                if v["key"] in new_keys and (v["pid"] not in firsts or v["wseq"] < firsts[v["pid"]]["wseq"]):
+                    firsts[v["pid"]] = v
+            order = sorted(firsts.values(), key=lambda v: len(v["plan_choices"]) + len(v["sched_choices"]))
+            order += [v for v in sorted(agg["viol"], key=lambda v: v["wseq"])[:40] if v["key"] in new_keys and v not in order]
+            for v in order[:40]:
+                cur = {"seed": v["seed"], "variant": v["variant"], "plan_choices": list(v["plan_choices"]), "sched_choices": list(v["sched_choices"])}
+                rep = {"property": pid_, "key": v["key"], "detail": v["detail"], "seed": v["seed"], "variant": v["variant"],
+                       "plan_choices": cur["plan_choices"], "sched_choices": cur["sched_choices"], "trace_digest": None, "repo_rev": repo_rev(),
+                       "note": "not minimised: the tree under test keeps state across runs, minimisation inside a long-lived process would be unsound",
+                       "found": {"tier": tier, "verif_seed": base_seed, "seed_index": v["idx"]}}
+                os.makedirs(os.path.join(VERIF, "replays"), exist_ok=True)
+                path = os.path.join(VERIF, "replays", "%s-%s-%d.json" % (pid_, hashlib.sha1(v["key"].encode()).hexdigest()[:8], v["seed"] % 10**8))
+                with open(path, "w") as f:
+                    json.dump(rep, f, indent=1, default=repr)
+                p = subprocess.run([sys.executable, os.path.abspath(__file__), pid_, "--replay", path], capture_output=True, text=True, timeout=300)
+                if ("reproduced key=%s" % v["key"]) in p.stdout:
+                    replays.append((v["key"], path, rep))
+                    harness[:] = [h for h in harness if "did not reproduce" not in h]
+                    print("violation key=%s (unminimised; first self-contained instance found)\n  detail: %s" % (v["key"], v["detail"][:600]))
+                    print("VIOLATION property=%s replay=%s" % (pid_, path), flush=True)
+                    break
+                os.unlink(path)
         for key in new_keys[6:]:
             print("further violation key (not minimised): %s  e.g. %s" % (key, by_key[key][0]["detail"][:200]))
 
